@@ -39,6 +39,8 @@ def features(shape: tuple[str, ...]) -> list[str]:
     for a, b in zip(shape, shape[1:]):
         f.add(f"pair_{a}>{b}")
     f.add(f"shape_{expr(shape)}")
+    if shape[-1] in ("any", "object_bare"):
+        f.add("rich_free_form_empty_schema")   # same trigger name as in the random grammar
     return sorted(f)
 
 
